@@ -143,9 +143,10 @@ def run(tier, argv):
     inv = ["Coherent", "SimulateOK", "GenerateOK", "UpdateOK", "RegenerateOK"]
     allops = ["simulate", "generate", "update", "regenerate"]
     if tier == "quick":
-        plans = [("a", ["vd"], allops, 2, "all"), ("b", ["fr", "vf"], ["simulate", "update", "regenerate"], 1, "same")]
+        plans = [("a", ["vd"], allops, 2, "all"), ("b", ["fr", "vf"], ["simulate", "update", "regenerate"], 1, "same"),
+                 ("c", ["fvc", "frk"], allops, 2, "all")]
     else:
-        plans = [("a", ["vd", "fr"], allops, 2, "all"), ("b", ["vf", "fv"], allops, 1, "same"), ("c", ["fvf", "fvs"], ["simulate", "update", "regenerate"], 1, "same")]
+        plans = [("a", ["vd", "fr"], allops, 2, "all"), ("b", ["vf", "fv"], allops, 1, "same"), ("c", ["fvf", "fvs"], ["simulate", "update", "regenerate"], 1, "same"), ("d", ["fvc", "frk"], allops, 2, "all")]
     for tag, progs, ops, maxc, ua in plans:
         cfg = gficheck.write_cfg(f"C08_{tier}_{tag}.cfg", progs, 2, ops, maxc, ua, inv, sim_scripts="few")
         info = gficheck.run_config(chk, cfg, set(ops), variant="eager", max_replay=350 if tier == "quick" else 6000,
